@@ -136,11 +136,39 @@ class CacheProp(SeqProp):
         out += f"N:{len(c.cache)} D:{s(dk)} A:{1 if agree else 0}"
         return out
 
+    def absent_probe(self, c):
+        """inherited calls that never count as a use: an absent key with and without a default"""
+        k = 10 ** 9 + 7
+        sent = ("default",)
+        checks = [("pop(absent, default)", lambda: c.pop(k, sent), sent), ("pop(absent, None)", lambda: c.pop(k, None), None),
+                  ("get(absent)", lambda: c.get(k), None), ("get(absent, default)", lambda: c.get(k, sent), sent),
+                  ("absent in cache", lambda: k in c, False), ("absent in keys()", lambda: k in c.keys(), False),
+                  ("len(keys()) == len(cache)", lambda: len(c.keys()) == len(c), True)]
+        for name, fn, want in checks:
+            try:
+                got = fn()
+            except BaseException as e:  # noqa
+                if isinstance(e, (KeyboardInterrupt, SystemExit)):
+                    raise
+                return f"{name} raised {err_name(e)}"
+            if got is not want and got != want:
+                return f"{name} gave {got!r}, a mapping gives {want!r}"
+        return None
+
     def run_impl(self, case):
         c = self.make(1)
         out = []
+        # another cache of the same class is alive and in use all the time: caches are independent of each other
+        other = self.make(2)
+        other_ref = []
         for op in case.ops:
             w = op.split()
+            n = len(out)
+            try:
+                other[f"b{n % 3}"] = n
+                other_ref = [x for x in other_ref if x[0] != f"b{n % 3}"] + [(f"b{n % 3}", n)]
+            except Exception:  # noqa
+                other_ref = None
             try:
                 r = call_with_alarm(lambda: self.do_op(c, w), 2.0)
                 if isinstance(r, tuple) and r[0] == "new":
@@ -158,6 +186,18 @@ class CacheProp(SeqProp):
                 out.append(r)
             else:
                 out.append(r + " " + self.digest(c))
+                mix = None
+                if n % 3 == 2:
+                    mix = self.absent_probe(c)
+                if mix is None and n % 4 == 3:
+                    try:
+                        if other_ref is None or len(other) > 2 or not set(other.keys()) <= {"b0", "b1", "b2"} or \
+                                any(other.get(k, v) != v for k, v in other_ref if k in other.keys()):
+                            mix = f"another cache of the same class, used in between, holds {dict(other.items())!r}"
+                    except Exception as e:  # noqa
+                        mix = f"another cache of the same class, used in between, raised {err_name(e)}"
+                if mix is not None:
+                    out[-1] = "mixin-mismatch " + mix + " ;; " + out[-1]
         return out
 
     def do_op(self, c, w):
@@ -216,6 +256,8 @@ class CacheProp(SeqProp):
         cap = 1
         st = []  # list of (k, v) lru: MRU first | lfu: (k, v, c) in list order
         for i, (op, line) in enumerate(zip(case.ops, impl_out)):
+            if line.startswith("mixin-mismatch "):
+                return f"op {i} `{op}`: {line[15:].split(' ;; ')[0][:600]}"
             if line == "timeout":
                 return f"op {i} `{op}` did not terminate within 2 s"
             w = op.split()
